@@ -109,6 +109,7 @@ static std::string trace_of(const vdrv::Result &r) {
     for (auto &e : r.events) { if (e.hook == vdrv::H_LOG) continue; s += std::string(vdrv::hook_name(e.hook)) + " tx" + std::to_string(e.tx) + " " + std::to_string(e.reqprog) + "/" + std::to_string(e.resprog) + " n" + std::to_string(e.len) + (e.null_data ? " null" : "") + " #" + std::to_string(vc::fnv1a(e.data) % 1000003) + "\n"; }
     for (auto &c : r.calls) s += std::string("call ") + c.kind + " rc" + std::to_string(c.rc) + " consumed" + std::to_string(c.consumed) + " ntx" + std::to_string(c.ntx) + "\n";
     for (auto &v : r.violations) s += "monitor " + v + "\n";
+    for (auto &l : r.logs) s += "log " + l + "\n"; // what a connection logs is part of what it reports (a process-wide "warn once" would silence every later connection)
     return s;
 }
 static std::string first_diff(const std::string &a, const std::string &b) {
@@ -122,7 +123,7 @@ static std::string cfg_snapshot(htp_cfg_t *cfg) {
     for (htp_hook_t *h : hooks) { if (!h) { s += "|-"; continue; } s += "|" + std::to_string(htp_list_size(h->callbacks)); for (size_t i = 0, n = htp_list_size(h->callbacks); i < n; i++) { htp_callback_t *cb = (htp_callback_t *)htp_list_get(h->callbacks, i); s += "," + std::to_string((uintptr_t)(cb ? (void *)cb->fn : nullptr)); } }
     return s;
 }
-static vdrv::Options opts() { vdrv::Options o; o.dump = true; o.keep_data = true; o.max_keep = 1 << 14; o.monitors = true; return o; }
+static vdrv::Options opts() { vdrv::Options o; o.dump = true; o.keep_data = true; o.max_keep = 1 << 14; o.monitors = true; o.logs = true; return o; }
 static std::string solo(const Case &c, const Conn &cn) { vdrv::Session ss(c.cfg, vdrv::Plan(), opts()); for (auto &op : cn.ops) ss.apply(op); return trace_of(ss.finish()); }
 
 static bool g_threads = false;
